@@ -70,7 +70,7 @@ RawNeverLaundered == ph = 1 /\ case.cls = "Raw" => out.cls \in {"Internal", "Raw
 
 -----------------------------------------------------------------------------
 (* Part 2: mutations.  case = [seed, ops]; an op is [k, i, j, r]: kind, position(s), replacement index *)
-NVocab == 111           \* size of the replacement vocabulary (harness-defined table)
+NVocab == 116           \* size of the replacement vocabulary (harness-defined table)
 MInit == ph = 0 /\ case = [seed |-> 1, ops |-> <<>>] /\ out = 0
 MSeed == ph = 0 /\ \E s \in 1..NSeeds : case' = [seed |-> s, ops |-> <<>>] /\ out' = 0 /\ ph' = 1
 \* the second and later mutations stay next to the previous one and replace only by the corner entries of the vocabulary
